@@ -22,62 +22,69 @@ theorem wild_spec (ts : List Task) (p : Tok) :
 
 /-! ## `filter_spec` -/
 
-/-- the specification function decides the declarative relation `Resolves` (name → itself; target → producer;
-    pattern with `*` → all matching names in definition order; options after a task name consumed by that task's
-    parser; a task with `pos_arg` takes all the rest; sub-task of a delayed task → placeholder) -/
-theorem spec_decides (ts : List Task) (args sel : List Tok) :
-    specFilter ts args = .ok sel ↔ Resolves ts args sel :=
+/-- **filter_spec** (full strength since dcfe778): `TaskControl._filter_tasks` selects exactly what the arguments denote
+    — name → itself; target → producer; pattern with `*` → all matching names in definition order; options after the
+    first naming of a task consumed by that task's parser; a task with `pos_arg` takes all the rest; a task named again
+    is selected again and parses nothing; sub-task of a delayed task → placeholder -/
+theorem filter_spec (ts : List Task) (args sel : List Tok) :
+    filterTasks ts args = .ok sel ↔ Resolves ts [] args sel :=
   spec_run_iff ts (args.length + 1) [] args sel (by omega)
 
 /-- `Resolves` is functional: an argument list denotes at most one selection -/
-theorem resolves_functional (ts : List Task) (args s1 s2 : List Tok) (h1 : Resolves ts args s1)
-    (h2 : Resolves ts args s2) : s1 = s2 := by
-  have a := (spec_decides ts args s1).2 h1
-  have b := (spec_decides ts args s2).2 h2
+theorem resolves_functional (ts : List Task) (args s1 s2 : List Tok) (h1 : Resolves ts [] args s1)
+    (h2 : Resolves ts [] args s2) : s1 = s2 := by
+  have a := (filter_spec ts args s1).2 h1
+  have b := (filter_spec ts args s2).2 h2
   rw [a] at b
   cases b; rfl
 
-/-- **filter_spec**: `TaskControl._filter_tasks` (as it is in /repo) selects exactly what the arguments denote, provided
-    no task is named again after its options were initialised (`NoReinit`, decidable; see `reinit_counterexample`) -/
-theorem filter_spec (ts : List Task) (args sel : List Tok) (h : NoReinit ts args) :
-    filterTasks ts args = .ok sel ↔ Resolves ts args sel := by
-  unfold filterTasks filterGen
-  rw [pf_head_eq_spec ts _ [] args h]
-  exact spec_run_iff ts (args.length + 1) [] args sel (by omega)
-
 /-- the selection is rejected iff the arguments denote nothing -/
-theorem filter_error_iff (ts : List Task) (args : List Tok) (h : NoReinit ts args) :
-    (∃ e, filterTasks ts args = .error e) ↔ ¬ ∃ sel, Resolves ts args sel := by
+theorem filter_error_iff (ts : List Task) (args : List Tok) :
+    (∃ e, filterTasks ts args = .error e) ↔ ¬ ∃ sel, Resolves ts [] args sel := by
   constructor
   · rintro ⟨e, he⟩ ⟨sel, hs⟩
-    rw [(filter_spec ts args sel h).2 hs] at he
+    rw [(filter_spec ts args sel).2 hs] at he
     cases he
   · intro hn
     cases hr : filterTasks ts args with
     | error e => exact ⟨e, rfl⟩
-    | ok sel => exact absurd ⟨sel, (filter_spec ts args sel h).1 hr⟩ hn
+    | ok sel => exact absurd ⟨sel, (filter_spec ts args sel).1 hr⟩ hn
 
 /-- a reported `not_found` names an argument that is neither a pattern, a task, a target nor a sub-task of a delayed
     task; and the model never runs out of fuel -/
 theorem filter_notFound_sound (ts : List Task) (args : List Tok) (a : Tok)
     (h : filterTasks ts args = .error (.notFound a)) : a ∈ args ∧ ∀ n, ¬ Denotes ts a n :=
-  notFound_sound ts true args a h
+  notFound_sound ts false args a h
 
-theorem filter_fuel_suffices (ts : List Task) (head : Bool) (args : List Tok) :
-    filterGen ts head [] args ≠ .error .fuel := filterGen_no_fuel ts head args
+theorem filter_fuel_suffices (ts : List Task) (pinned : Bool) (args : List Tok) :
+    filterGen ts pinned [] args ≠ .error .fuel := filterGen_no_fuel ts pinned args
 
-/-- without `NoReinit` the statement is **false of the current code** (open finding `repeated-name-truncates`):
-    `doit t1 t1 t2` selects `[t1, t1]` although the arguments denote `[t1, t1, t2]` -/
+/-- every selected name stays selected: each argument that names a task (outside the values of a `pos_arg` task and
+    option values) is in the selection — in particular `doit t1 t1 t2` selects `t2` -/
+example : filterTasks [{ name := ['t', '1'] }, { name := ['t', '2'] }] [['t', '1'], ['t', '1'], ['t', '2']]
+    = .ok [['t', '1'], ['t', '1'], ['t', '2']] ∧
+    filterTasks [{ name := ['t', '1'] }, { name := ['t', '2'] }] [['t', '1'], ['t', '1'], ['n', 'o']]
+    = .error (.notFound ['n', 'o']) := by decide
+
+/-- F-C12b (fixed in /repo by dcfe778): before the fix the statement was **false**: the pinned `_process_filter`
+    stopped at a task named again — `doit t1 t1 t2` selected `[t1, t1]` although the arguments denote `[t1, t1, t2]` -/
 theorem reinit_counterexample :
-    ¬ ∀ (ts : List Task) (args sel : List Tok), filterTasks ts args = .ok sel ↔ Resolves ts args sel := by
+    ¬ ∀ (ts : List Task) (args sel : List Tok), pinnedFilterTasks ts args = .ok sel ↔ Resolves ts [] args sel := by
   intro h
   have h1 := (h [{ name := ['t', '1'] }, { name := ['t', '2'] }] [['t', '1'], ['t', '1'], ['t', '2']]
     [['t', '1'], ['t', '1']]).1 (by decide)
-  have h2 := (spec_decides [{ name := ['t', '1'] }, { name := ['t', '2'] }] [['t', '1'], ['t', '1'], ['t', '2']]
+  have h2 := (filter_spec [{ name := ['t', '1'] }, { name := ['t', '2'] }] [['t', '1'], ['t', '1'], ['t', '2']]
     [['t', '1'], ['t', '1'], ['t', '2']]).1 (by decide)
   have := resolves_functional _ _ _ _ h1 h2
   revert this
   decide
+
+/-- the pinned code was wrong only there: when no task is named again after its options were initialised
+    (`NoReinit`, decidable) it selected what the current code selects -/
+theorem pinned_agrees_without_reinit (ts : List Task) (args : List Tok) (h : NoReinit ts args) :
+    pinnedFilterTasks ts args = filterTasks ts args := by
+  unfold pinnedFilterTasks filterTasks filterGen
+  rw [pf_head_eq_spec ts _ [] args h]
 
 /-! ## `default` -/
 
@@ -158,16 +165,15 @@ def exTasks : List Task := [
   { name := ['g'], hasSubtask := true, taskDep := [['g', ':', 'x']] },
   { name := ['g', ':', 'x'], taskDep := [['b']] }]
 
-/-- a pattern matching two names, then one of them named again with options (detached value), then a name that is also
-    a target of another task (the name wins): the specification selects four entries, the code stops at the re-named
-    task -/
-example : specFilter (prepare exTasks) [['a', '*'], ['a', 'b'], ['-', 'f', 'v'], ['x'], ['-', '-', 'f', 'l'], ['b']]
+/-- a pattern matching two names, then one of them named again (its options are initialised already: the next token
+    is a name again), then a name that is also a target of another task (the name wins) -/
+example : filterTasks (prepare exTasks) [['a', '*'], ['a', 'b'], ['b']]
     = .ok [['a'], ['a', 'b'], ['a', 'b'], ['b']] ∧
-    filterTasks (prepare exTasks) [['a', '*'], ['a', 'b'], ['-', 'f', 'v'], ['x'], ['-', '-', 'f', 'l'], ['b']]
-    = .ok [['a'], ['a', 'b'], ['a', 'b']] ∧
-    ¬ NoReinit (prepare exTasks) [['a', '*'], ['a', 'b'], ['-', 'f', 'v'], ['x'], ['-', '-', 'f', 'l'], ['b']] := by decide
+    pinnedFilterTasks (prepare exTasks) [['a', '*'], ['a', 'b'], ['b']] = .ok [['a'], ['a', 'b'], ['a', 'b']] ∧
+    filterTasks (prepare exTasks) [['a', '*'], ['a', 'b'], ['-', 'f']] = .error (.notFound ['-', 'f']) ∧
+    ¬ NoReinit (prepare exTasks) [['a', '*'], ['a', 'b'], ['b']] := by decide
 
-/-- the hypotheses of `filter_spec` hold on a non-trivial input and the interesting branches are reached -/
+/-- the interesting branches of `filter_spec` are reached on a non-trivial input -/
 example : NoReinit (prepare exTasks) [['a', 'b'], ['-', 'v'], ['-', 'f'], ['-', '-'], ['g', ':', '*'], ['a']] ∧
     filterTasks (prepare exTasks) [['a', 'b'], ['-', 'v'], ['-', 'f'], ['-', '-'], ['g', ':', '*'], ['a']]
       = .ok [['a', 'b'], ['g', ':', 'x'], ['a']] ∧
